@@ -446,8 +446,13 @@ class io_uring_context::read_sender {
 
     void start_io() noexcept {
       UNIFEX_ASSERT(context_.is_running_on_io_thread());
-      stopCallback_.construct(
-          get_stop_token(receiver_), cancel_callback{*this});
+      if (!stopCallbackConstructed_) {
+        // once: start_io() runs again when the operation is resubmitted from
+        // the pending-io queue
+        stopCallbackConstructed_ = true;
+        stopCallback_.construct(
+            get_stop_token(receiver_), cancel_callback{*this});
+      }
       auto populateSqe = [this](io_uring_sqe& sqe) noexcept {
         sqe.opcode = IORING_OP_READV;
         sqe.fd = fd_;
@@ -569,6 +574,7 @@ class io_uring_context::read_sender {
         Receiver>::template callback_type<cancel_callback>>
         stopCallback_;
     std::atomic_char refCount_{1};
+    bool stopCallbackConstructed_ = false;
     cancel_operation cop_{*this};
   };
 
@@ -644,8 +650,13 @@ class io_uring_context::write_sender {
 
     void start_io() noexcept {
       UNIFEX_ASSERT(context_.is_running_on_io_thread());
-      stopCallback_.construct(
-          get_stop_token(receiver_), cancel_callback{*this});
+      if (!stopCallbackConstructed_) {
+        // once: start_io() runs again when the operation is resubmitted from
+        // the pending-io queue
+        stopCallbackConstructed_ = true;
+        stopCallback_.construct(
+            get_stop_token(receiver_), cancel_callback{*this});
+      }
       auto populateSqe = [this](io_uring_sqe& sqe) noexcept {
         sqe.opcode = IORING_OP_WRITEV;
         sqe.fd = fd_;
@@ -767,6 +778,7 @@ class io_uring_context::write_sender {
         Receiver>::template callback_type<cancel_callback>>
         stopCallback_;
     std::atomic_char refCount_{1};
+    bool stopCallbackConstructed_ = false;
     cancel_operation cop_{*this};
   };
 
@@ -1151,8 +1163,13 @@ class io_uring_context::accept_sender {
 
     void start_io() noexcept {
       UNIFEX_ASSERT(context_.is_running_on_io_thread());
-      stopCallback_.construct(
-          get_stop_token(receiver_), cancel_callback{*this});
+      if (!stopCallbackConstructed_) {
+        // once: start_io() runs again when the operation is resubmitted from
+        // the pending-io queue
+        stopCallbackConstructed_ = true;
+        stopCallback_.construct(
+            get_stop_token(receiver_), cancel_callback{*this});
+      }
       auto populateSqe = [this](io_uring_sqe& sqe) noexcept {
         sqe.opcode = IORING_OP_ACCEPT;
         sqe.accept_flags = SOCK_NONBLOCK;
@@ -1277,6 +1294,7 @@ class io_uring_context::accept_sender {
         Receiver>::template callback_type<cancel_callback>>
         stopCallback_;
     std::atomic_char refCount_{1};
+    bool stopCallbackConstructed_ = false;
     cancel_operation cop_{*this};
   };
 
